@@ -230,6 +230,53 @@ void handler_OnObj(int index, int type, NumericExpr e) { g_calls++; g_index = in
                           'NLReader::ReadNumericExpr (opaque)', 'Handler::OnObj (ghost: records the call)'])
 
 
+def gsegment_harness():
+    """'G' segment: NLReader::ReadLinearExpr<ObjHandler>(): the linear part of objective `index` is forwarded to the builder
+    iff the objective is needed, at its resulting index and with the announced number of terms; otherwise it is read
+    into a null handler (discarded)."""
+    parts = [PRELUDE, decl('NeedObj').replace('bool NeedObj', 'bool handler_NeedObj'),
+             decl('resulting_obj_index').replace('int resulting_obj_index', 'int handler_resulting_obj_index'), """
+struct { int num_objs; int num_vars; } header_;
+static int ReadUInt1(unsigned ub) { int v = nondet_int(); __CPROVER_assume(v >= 0 && (unsigned)v < ub); return v; }
+static int ReadUInt2(unsigned lb, unsigned ub) { int v = nondet_int(); __CPROVER_assume(v >= 0 && lb <= (unsigned)v && (unsigned)v < ub); return v; }
+#define VP_SEL2(_1, _2, NAME, ...) NAME
+#define ReadUInt(...) VP_SEL2(__VA_ARGS__, ReadUInt2, ReadUInt1)(__VA_ARGS__)
+static void reader_ReadTillEndOfLine(void) {}
+int g_read_index, g_notified, g_index, g_terms, g_null_reads, g_h_reads, g_read_terms;
+/* Handler::OnLinearObjExpr(obj_index, num_terms) */
+static int handler_OnLinearObjExpr(int obj_index, int num_terms) { g_notified++; g_index = obj_index; g_terms = num_terms; return 0; }
+/* ReadLinearExpr(num_terms, handler): proved by C02.NLReader.ReadLinearExpr (exactly num_terms terms) */
+static void ReadLinearExpr_null(int num_terms) { g_null_reads++; g_read_terms = num_terms; }
+static void ReadLinearExpr_h(int num_terms, int h) { g_h_reads++; g_read_terms = num_terms; }
+""",
+             Fn(NLR, r'int num_items\(\) const \{ return this->reader_\.header_\.num_objs; \}', 'int lh_num_items(void)',
+                subst=[(r'this->reader_\.', '', 1)], label='mp::internal::NLReader::ObjHandler::num_items', nmatches=1),
+             Fn(NLR, r'bool SkipExpr\(int obj_index\) const', 'bool lh_SkipExpr(int obj_index)',
+                subst=[(r'this->reader_\.handler_\.', 'handler_', 1)], label='mp::internal::NLReader::ObjHandler::SkipExpr', nmatches=1),
+             Fn(NLR, r'typename Handler::LinearObjHandler OnLinearExpr\(int index, int num_terms\)', 'int lh_OnLinearExpr(int index, int num_terms)',
+                subst=[(r'auto& h = this->reader_\.handler_;', '', 1), (r'\bh\.', 'handler_', 2)],
+                label='mp::internal::NLReader::ObjHandler::OnLinearExpr', nmatches=1),
+             Fn(NLR, r'void NLReader<Reader, Handler>::ReadLinearExpr\(\) \{', 'void ReadLinearExpr_G(void)',
+                contract='__CPROVER_requires(INV && header_.num_objs >= 0 && header_.num_vars >= 0 && g_notified == 0 && g_null_reads == 0 && g_h_reads == 0) '
+                         '__CPROVER_ensures(0 <= g_read_index && g_read_index < header_.num_objs) '
+                         '__CPROVER_ensures(g_notified == ((M || K - 1 == g_read_index) ? 1 : 0) && g_h_reads == g_notified && g_null_reads == 1 - g_notified) '
+                         '__CPROVER_ensures(1 <= g_read_terms && g_read_terms <= header_.num_vars) '
+                         '__CPROVER_ensures(g_notified == 1 ==> (g_index == (M ? g_read_index : 0) && g_terms == g_read_terms)) '
+                         '__CPROVER_assigns(g_read_index, g_notified, g_index, g_terms, g_null_reads, g_h_reads, g_read_terms)',
+                subst=HANDLE + [(r'LinearHandler lh\(\*this\);', '', 1), (r'\blh\.', 'lh_', -1),
+                                (r'ReadLinearExpr\(num_terms, NullLinearExprHandler\(\)\)', 'ReadLinearExpr_null(num_terms)', 1),
+                                (r'ReadLinearExpr\(num_terms, lh_OnLinearExpr\(index, num_terms\)\)', 'ReadLinearExpr_h(num_terms, lh_OnLinearExpr(index, num_terms))', 1),
+                                (r'reader_ReadTillEndOfLine\(\);', 'reader_ReadTillEndOfLine(); /* ghost */ g_read_index = index;', 1)],
+                label='mp::internal::NLReader::ReadLinearExpr<ObjHandler>()', nmatches=1),
+             STATE + """void harness(void) { vp_state(); header_.num_objs = nondet_int(); header_.num_vars = nondet_int();
+  __CPROVER_assume(header_.num_objs >= 0 && header_.num_vars >= 0); vp_in_n = header_.num_objs;
+  g_notified = 0; g_null_reads = 0; g_h_reads = 0; ReadLinearExpr_G(); VP_REACH("normal return"); }
+"""]
+    return Harness('C12.NLReader.G_segment', 'C12', parts, enforce='ReadLinearExpr_G',
+                   replace=['handler_NeedObj', 'handler_resulting_obj_index'], inputs=['vp_in_objno', 'vp_in_multiobj', 'vp_in_n'],
+                   stubs=['Handler::OnLinearObjExpr (ghost record)', 'ReadLinearExpr(n, handler) (proved under C02)', 'NLReader::ReadUInt'])
+
+
 def lemma_harness():
     names = ['resulting_nobj', 'NeedObj', 'resulting_obj_index', 'solver_objno_used', 'solver_notify_obj_added',
              'solver_objno_specified', 'solver_is_objno_specified', 'vp_OnHeader_objno_check']
@@ -309,5 +356,5 @@ def replay(lead, inputs, obs):
 
 def harnesses(tier, seed):
     hs = [fn_harness(n) for n in ALL]
-    hs += [setobjno_harness(), onheader_harness(), osegment_harness(), lemma_harness()]
+    hs += [setobjno_harness(), onheader_harness(), osegment_harness(), gsegment_harness(), lemma_harness()]
     return hs
